@@ -45,15 +45,15 @@ func c07Honest(origin string, registered ...string) (*RateLimitedIssuer, RateLim
 	client := NewRateLimitedClientFromSecret(secret)
 	blind := vBytes("blind", 48, 48)
 	vAssume(blind[0] != 0)
-	t3LastBlind = blind
-	st, err := client.CreateTokenRequest(vBytesC("challenge", 0, 1), vBytes("nonce", 32, 32), blind, issuer.TokenKeyID(), issuer.TokenKey(), origin, issuer.NameKey())
+	challenge, nonce := vBytesC("challenge", 0, 1), vBytes("nonce", 32, 32)
+	t3LastBlind, t3LastSecret, t3LastChallenge, t3LastNonce = blind, secret, challenge, nonce
+	st, err := client.CreateTokenRequest(challenge, nonce, blind, issuer.TokenKeyID(), issuer.TokenKey(), origin, issuer.NameKey())
 	vAssume(err == nil)
 	wire := append([]byte{}, st.Request().Marshal()...)
 	return issuer, st, wire
 }
 
-
-// the request blind used by the last c07Honest call
-var t3LastBlind []byte
+// the inputs of the last c07Honest call
+var t3LastBlind, t3LastSecret, t3LastChallenge, t3LastNonce []byte
 
 func hexOf(b []byte) string { return hex.EncodeToString(b) }
